@@ -144,7 +144,7 @@ def cases(tier, seed):
                                                         {"b": "acutecomb", "m": [64, 0, 0, 64], "d": [250 * P, 0]}], "anchors": [], "w": 600 * P, "h": 0, "u": []}
                 m["ufo"]["order"] = list(m["ufo"]["order"]) + ["aacute.nest", "amixed", "amixed.nest"]
                 m["ufo"].setdefault("lib", {})["com.github.googlei18n.ufo2ft.filters"] = flt
-        if k % 4 == 2:
+        if k % 3 == 2:
             # every master's own lib carries a (different) public.skipExportGlyphs list: the list-of-UFOs entry point takes
             # their union
             for j, m in enumerate(fam["masters"]):
